@@ -186,7 +186,7 @@ func genDisk(rt *rapid.T) DiskPlan {
 	return DiskPlan{
 		Chunk:         rapid.SampledFrom([]int{0, 1, 3, 7, 4096}).Draw(rt, "chunk"),
 		EOFWithData:   rapid.Bool().Draw(rt, "eofwithdata"),
-		NoReadDirFile: rapid.IntRange(0, 4).Draw(rt, "noreaddirfile") == 0,
+		NoReadDirFile: rapid.IntRange(0, 4).Draw(rt, "noreaddirfile") == 4,
 	}
 }
 
@@ -248,15 +248,15 @@ func genScanOptions(rt *rapid.T, cfg *Config) {
 	if rapid.Bool().Draw(rt, "realroot") {
 		cfg.Roots[0].Path = "/simroot0"
 	}
-	if len(nonRootDirs) > 0 && rapid.IntRange(0, 2).Draw(rt, "useskip") == 0 {
+	if len(nonRootDirs) > 0 && rapid.IntRange(0, 2).Draw(rt, "useskip") == 2 {
 		cfg.DirsToSkip = uniq(rapid.SliceOfN(rapid.SampledFrom(nonRootDirs), 1, 2).Draw(rt, "dirstoskip"))
 	}
 	switch rapid.IntRange(0, 5).Draw(rt, "skipmode") {
-	case 0:
+	case 3:
 		cfg.SkipRegex = rapid.SampledFrom(skipRegexes).Draw(rt, "skipregex")
-	case 1:
+	case 4:
 		cfg.SkipGlob = rapid.SampledFrom(skipGlobs).Draw(rt, "skipglob")
-	case 2:
+	case 5:
 		cfg.SkipRegex = rapid.SampledFrom(skipRegexes).Draw(rt, "skipregex")
 		cfg.SkipGlob = rapid.SampledFrom(skipGlobs).Draw(rt, "skipglob")
 	}
@@ -267,7 +267,7 @@ func genScanOptions(rt *rapid.T, cfg *Config) {
 			sizes = append(sizes, len(x.Content))
 		}
 	})
-	if len(sizes) > 0 && rapid.IntRange(0, 2).Draw(rt, "usemaxsize") == 0 {
+	if len(sizes) > 0 && rapid.IntRange(0, 2).Draw(rt, "usemaxsize") == 2 {
 		s := rapid.SampledFrom(sizes).Draw(rt, "maxsize.base") + rapid.IntRange(-1, 1).Draw(rt, "maxsize.delta")
 		if s < 0 {
 			s = 0
@@ -275,7 +275,7 @@ func genScanOptions(rt *rapid.T, cfg *Config) {
 		cfg.MaxFileSize = s
 	}
 	// requested paths
-	if rapid.IntRange(0, 2).Draw(rt, "usepaths") == 0 {
+	if rapid.IntRange(0, 2).Draw(rt, "usepaths") == 2 {
 		var cands []string
 		tree.WalkTree(func(p string, x *Node) {
 			if p == "." || x.Kind == "symlink" || (x.Kind != "file" && x.Kind != "dir") {
